@@ -356,7 +356,7 @@ def _x0(prog, rep):
     ubv = env.get("ub")
     v = src(loop.target.elts[1]) if isinstance(loop.target, ast.Tuple) else src(loop.target)
     ok = lbv is not None and ubv is not None and f"{v}.lb" in src(lbv) and f"{v}.ub" in src(ubv)
-    rep.ob("R09.4", f"{fi.name}", ok, "lb/ub are the bounds of the variable being placed" if ok else "lb/ub used for the start point are not read from the variable of the same iteration", loc=fi.loc, detail="own-bounds")
+    rep.pin("initial point", "R09.4", f"{fi.name}", ok, "lb/ub are the bounds of the variable being placed" if ok else "lb/ub used for the start point are not read from the variable of the same iteration", loc=fi.loc, detail="own-bounds")
 
 
 def _auto(prog, rep):
